@@ -531,6 +531,28 @@ def f_cutoff(multi=0, src="x", v=1):
     }
 
 
+def f_latestatic(gap=1, cfg="c"):
+    """The top plan consumes cfg.txt (amended), starts a sub-plan and only afterwards declares the
+    static file late.txt, which a step of the sub-plan (./work.py) amends. An edit of cfg.txt
+    reruns the top plan only: neither the sub-plan nor work.py consumes it."""
+    root = [["static", "cfg.txt", "sub/plan.py", "sub/work.py"],
+            ["amend", {"inp": ["cfg.txt"]}], ["read", "cfg.txt"],
+            ["plan", "./plan.py", {"workdir": "sub"}]]
+    root += [["static", f"pad{i}.txt"] for i in range(gap)]
+    root.append(["static", "late.txt"])
+    files = {
+        "plan.py": script(root),
+        "cfg.txt": cfg + "\n",
+        "late.txt": "late\n",
+        "sub/plan.py": script([["run", "./work.py", {"out": ["w.out"]}]]),
+        "sub/work.py": script([["amend", {"inp": ["../late.txt"]}], ["read", "../late.txt"],
+                               ["write", "w.out", ["../late.txt"]]]),
+    }
+    for i in range(gap):
+        files[f"pad{i}.txt"] = "pad\n"
+    return files
+
+
 DOMAINS = {
     "f_chain": {"a_tag": (1, 2), "b": (1, 0), "b_need": ("DEFAULT", "OPTIONAL"),
                 "b_out": ("b.txt", "b2.txt"), "c": (1, 0), "src": ("x", "y"), "src_exists": (1, 0)},
